@@ -18,6 +18,8 @@ def cases(rng, tier):
         yield Case(program=gen.render(scope_program(rng)), tag='scope', nontrivial=True)
     for i in range(n // 4):
         yield Case(program=gen.render(fref_program(rng)), tag='fref', nontrivial=True)
+    for i in range(n // 6):
+        yield Case(program=identity_program(rng), tag='fn-identity', nontrivial=True)
     # every syntactic form at random (untyped): the model is the oracle, errors included
     for i in range(2 * n):
         t = gen.wild(rng, rng.randint(2, 5))
@@ -25,6 +27,33 @@ def cases(rng, tier):
     for i in range(n // 2):
         t = scope_program(rng) if rng.random() < 0.5 else g.program()
         yield Case(program=gen.render(bad_reference(rng, t)), tag='badref', nontrivial=True)
+
+
+PRODUCERS = ["(ㄱ ㅎ)", "(ㄱㅇㄱ ㅎ)", "(ㄴ ㄷ ㄷㅎㄷ ㅎ)", "((ㄱ ㅎ) ㅎ)", "(ㄱㅇㄱ ㄱㅇㄱ ㄱㅎㄷ ㅎ)"]
+PASSERS = ["(ㄱㅇㄱ ㅎ)",                                              # λc. c
+           "(ㄱㅇㄱ ㄱㅇㄱ (ㄱㅇㄱ ㄱㅇㄱ ㄴ ㅎㄷ) ㅎㄷ ㅎ)",                  # λc. (c = c)(c, c): hands over an already evaluated argument
+           "(ㄴ ㄱㅇㄱ (ㄱㅇㄱ ㄴ ㄴ ㅎㄷ) ㅎㄷ ㅎ)",                        # λc. (c = 1)(1, c)
+           "(ㄱㅇㄱ (ㄱㅇㄱ ㅎ) ㅎㄴ ㅎ)",                                 # λc. (λd. d)(c)
+           "(ㄱㅇㄱ (ㄱㅇㄱ ㄱㅇㄱ (ㄱㅇㄱ ㄱㅇㄱ ㄴ ㅎㄷ) ㅎㄷ ㅎ) ㅎㄴ ㅎ)",    # λc. PICK(c)
+           "((ㄱㅇㄱ ㅁㄹㅎㄴ) ㄱ (ㄱㅇㄱ ㄱㅇㄴ ㅎㄴ ㅎ) ㅎㄷ ㅎ)"]             # λc. (λl i. l(i))([c], 0)
+OBSERVERS = ["(ㄱㅇㄱ ㄱㅇㄱ ㄴ ㅎㄷ ㅎ)",                                 # λa. a = a           (the same object: True)
+             "(ㄱㅇㄱ ㅎㄱ ㅎ)",                                        # λa. a()
+             "(ㄱㅇㄱ (ㄱㅇㄱ ㄴ ㅅㅈㅎㄷ) ㅎㄴ ㅎ)",                          # λa. {a: 1}(a)       (a key finds itself)
+             "((ㄱㅇㄱ ㅁㄹㅎㄴ) (ㄱㅇㄱ ㅁㄹㅎㄴ) ㄴ ㅎㄷ ㅎ)"]                   # λa. [a] = [a]
+
+
+def identity_program(rng):
+    """a function value travels through 1–3 functions that hand it over in tail position — also after it has been
+    evaluated (a Boolean selection on `c = c`) — and is then compared with itself / used as a key / called: it must
+    still be *that very function*, evaluated once (seeded change S02g lost the memo of such call expressions)"""
+    def produced():
+        e = rng.choice(PRODUCERS)
+        for _ in range(rng.randint(1, 3)):
+            e = f"({e} {rng.choice(PASSERS)} ㅎㄴ)"
+        return e
+    if rng.random() < 0.25:   # two separately produced functions are different objects
+        return f"{produced()} {produced()} (ㄱㅇㄱ ㄴㅇㄱ ㄴ ㅎㄷ ㅎ) ㅎㄷ"
+    return f"{produced()} {rng.choice(OBSERVERS)} ㅎㄴ"
 
 
 def closure_program(rng):
@@ -228,12 +257,12 @@ def relevant(rec, case):
 
 
 SPEC = {
-    'lean': ['C02'],
+    'lean': ['C02', 'NatSem'],
     'cases': cases,
     'relevant': relevant,
     'stream': 'C02 typed/closure program stream (main.main result vs uhdrv main)',
     'rule': 'type-directed random closed programs (closures returned / passed / nested ≤ depth, computed and negative '
-            'indices, Boolean / list / dict / string callables) plus the wild family (untyped random trees over every syntactic form: references in and out of range, any function index, definitions, built-ins at typical and untypical arities, arbitrary callees), closure families, the fref family (2–4 nested functions, the innermost calling any enclosing level by positive or negative function index, directly or through an identity), the badref family (one reference made ill-scoped: negative / too large position, non-existent frame) and the scope family (one enclosing closure applied along several argument paths; inner bodies refer to outer parameters statically, as computed positions, from nested functions, outermost-relative); a case is non-trivial when its '
+            'indices, Boolean / list / dict / string callables) plus the wild family (untyped random trees over every syntactic form: references in and out of range, any function index, definitions, built-ins at typical and untypical arities, arbitrary callees), closure families, the fref family (2–4 nested functions, the innermost calling any enclosing level by positive or negative function index, directly or through an identity), the fn-identity family (a function value handed on in tail position by 1–3 functions — also after it was evaluated — then compared with itself, used as a dictionary key, called), the badref family (one reference made ill-scoped: negative / too large position, non-existent frame) and the scope family (one enclosing closure applied along several argument paths; inner bodies refer to outer parameters statically, as computed positions, from nested functions, outermost-relative); a case is non-trivial when its '
             'tree has ≥ 8 nodes; distinct by program text',
     'trusted': ['hand-written model UH/Model/{Interp,Builtins,Machine}.lean tied to the code by correspondence only'],
     'assumptions': ['host big integers = Lean Int; IEEE-754 + − × ÷ of the host on both sides'],
